@@ -17,7 +17,7 @@ pub use crate::decoder::{decode, mk, pk, Form, Insn, Op, Reg, INVALID, NOREG, RK
 use crate::decoder::{AMT, COND, IMM2, RA, RD, RM, RN, SH};
 pub use dora_asm::arm64::{AssemblerArm64, Cond, Extend, MemOperand, NeonRegister, Register, Shift, REG_SP, REG_ZERO};
 
-pub const MAXW: usize = 8;
+pub const MAXW: usize = 6;
 
 #[derive(Clone, Copy, Debug)]
 pub struct Words {
@@ -26,15 +26,30 @@ pub struct Words {
 }
 
 pub fn words(a: AssemblerArm64) -> Words {
-    let code = a.finalize(4).code();
+    words_of(a.finalize(4).code())
+}
+
+/// For composite helpers (symbolic number of emitted words): `finalize(1)`.  With a symbolic
+/// buffer length the padding loop of `align_to(4)` (`while len % 4 != 0 { brk }`) cannot be
+/// bounded by the model checker although it never iterates; it is exercised with `finalize(4)`
+/// by every single-word harness.  The result is checked to be a whole number of words.
+pub fn words1(a: AssemblerArm64) -> Words {
+    words_of(a.finalize(1).code())
+}
+
+fn words_of(code: Vec<u8>) -> Words {
     let mut r = Words { n: code.len() / 4, w: [0; MAXW] };
     if code.len() % 4 != 0 || r.n > MAXW {
         r.n = usize::MAX;
         return r;
     }
+    // concrete trip count: a loop bounded by the (possibly symbolic) length would be unwound
+    // up to the unwind limit by the model checker
     let mut i = 0;
-    while i < r.n {
-        r.w[i] = u32::from_le_bytes([code[4 * i], code[4 * i + 1], code[4 * i + 2], code[4 * i + 3]]);
+    while i < MAXW {
+        if i < r.n {
+            r.w[i] = u32::from_le_bytes([code[4 * i], code[4 * i + 1], code[4 * i + 2], code[4 * i + 3]]);
+        }
         i += 1;
     }
     r
@@ -212,29 +227,32 @@ pub fn bitmask_imm_ok(imm: u64, regsize: u32) -> bool {
 
 /// movz/movn/movk chain semantics; (ok, final register value in the 64-bit view).  !ok when a
 /// word is not a move-wide to `rd` of the right width or the chain does not start with MOVZ/MOVN.
-pub fn mov_chain(w: &Words, from: usize, to: usize, rd: Reg, sf: u8) -> (bool, u64) {
+pub fn mov_chain(w: &Words, to: usize, rd: Reg, sf: u8) -> (bool, u64) {
+    // words 0 .. to-1 (at most 4) are the chain
     let mut val: u64 = 0;
-    let mut i = from;
-    if from >= to || to > MAXW {
+    if to == 0 || to > 4 {
         return (false, 0);
     }
-    while i < to {
-        let d = decode(w.w[i]);
-        if !d.form_is(MovWide) || !d.rd_is(rd) || d.size() != sf {
-            return (false, 0);
-        }
-        let sh = (d.imm2() as u32) & 63;
-        let piece = (d.imm as u64) << sh;
-        if i == from {
-            if d.op_is(MOVZ) { val = piece; } else if d.op_is(MOVN) { val = !piece; } else { return (false, 0); }
-        } else {
-            if !d.op_is(MOVK) {
+    let mut i = 0;
+    while i < 4 {
+        if i < to {
+            let d = decode(w.w[i]);
+            if !d.form_is(MovWide) || !d.rd_is(rd) || d.size() != sf {
                 return (false, 0);
             }
-            val = (val & !(0xffffu64 << sh)) | piece;
-        }
-        if sf == 0 {
-            val &= 0xffff_ffff; // a W write zero-extends
+            let sh = (d.imm2() as u32) & 63;
+            let piece = (d.imm as u64) << sh;
+            if i == 0 {
+                if d.op_is(MOVZ) { val = piece; } else if d.op_is(MOVN) { val = !piece; } else { return (false, 0); }
+            } else {
+                if !d.op_is(MOVK) {
+                    return (false, 0);
+                }
+                val = (val & !(0xffffu64 << sh)) | piece;
+            }
+            if sf == 0 {
+                val &= 0xffff_ffff; // a W write zero-extends
+            }
         }
         i += 1;
     }
@@ -246,7 +264,7 @@ pub fn mov_imm_post(w: &Words, rd: u8, sf: u8, want: u64) -> bool {
     if w.n == 0 || w.n > 4 {
         return false;
     }
-    mov_chain(w, 0, w.n, gz(rd, sf), sf) == (true, want)
+    mov_chain(w, w.n, gz(rd, sf), sf) == (true, want)
 }
 
 /// post-condition of the `ldr_mem_*` / `str_mem_*` helpers: either one load/store word whose
@@ -256,7 +274,7 @@ pub fn mem_post(w: &Words, load: bool, size: u8, rt: Reg, base: u8, offset: i64,
     if w.n == 0 || w.n > 5 {
         return false;
     }
-    let last = decode(w.w[w.n - 1]);
+    let last = decode(w.w[(w.n - 1) % MAXW]);
     if last.size() != size || !last.rd_is(rt) || !last.rn_is(xs(base)) {
         return false;
     }
@@ -277,7 +295,7 @@ pub fn mem_post(w: &Words, load: bool, size: u8, rt: Reg, base: u8, offset: i64,
     if !last.rm_is(xz(scratch)) || last.sh() != 3 || last.amt() != 0 {
         return false;
     }
-    mov_chain(w, 0, w.n - 1, xz(scratch), 1) == (true, offset as u64)
+    mov_chain(w, w.n - 1, xz(scratch), 1) == (true, offset as u64)
 }
 
 // label / branch semantics --------------------------------------------------------------------
@@ -310,4 +328,14 @@ pub fn cond_branch_reaches(w0: u32, w1: Option<u32>, reserved2: bool, pos: i64, 
         return match w1 { Some(x) => decode(x) == ins(B, BranchImm, 0).set_imm(target - (pos + 4)), None => false };
     }
     false
+}
+
+// SIMD arrangement helpers (C7.2 ADDV / CNT: size:Q -> <T>)
+pub fn vec_arrangement(size: u32, q: u32) -> RK {
+    match (size << 1) | (q & 1) {
+        0 => RK::V8B, 1 => RK::V16B, 2 => RK::V4H, 3 => RK::V8H, 4 => RK::V2S, 5 => RK::V4S, _ => RK::V2D,
+    }
+}
+pub fn addv_scalar(size: u32) -> RK {
+    match size { 0 => RK::B, 1 => RK::H, _ => RK::S }
 }
